@@ -984,7 +984,30 @@ class Exec:
     def equal(self, a, b, fr=None):
         heap = fr.heap if fr is not None else None
         if isinstance(a, Ite):
-            return z3.If(a.c, zbool(self.equal(a.a, b, fr)), zbool(self.equal(a.b, b, fr)))
+
+            def branch(x, cond):
+                try:
+                    return zbool(self.equal(x, b, fr))
+                except Unsupported:
+                    # a comparison the subset gives no meaning to is irrelevant on a branch the path excludes
+                    if fr is not None and self.pv.feasible(list(fr.pc) + [cond]) is False:
+                        return z3.BoolVal(False)
+                    raise
+
+            if fr is None:
+                return z3.If(a.c, branch(a.a, a.c), branch(a.b, z3.Not(a.c)))
+            # evaluate each branch under its own condition (nested conditionals see the enclosing ones)
+            fr.pc.append(a.c)
+            try:
+                ra = branch(a.a, z3.BoolVal(True))
+            finally:
+                fr.pc.pop()
+            fr.pc.append(z3.Not(a.c))
+            try:
+                rb = branch(a.b, z3.BoolVal(True))
+            finally:
+                fr.pc.pop()
+            return z3.If(a.c, ra, rb)
         if isinstance(b, Ite):
             return self.equal(b, a, fr)
         if isinstance(a, Ref) and a.kind == "list" and heap is not None:
